@@ -108,7 +108,7 @@ class TimeZoneInfo : public TimeZoneIf {
   std::string version_;      // the tzdata version if available
   std::string future_spec_;  // for after the last zic transition
   bool extended_;            // future_spec_ was used to generate transitions
-  year_t last_year_;         // the final year of the generated transitions
+  year_t last_year_;         // the final civil year covered by the transitions
 
   // We remember the transitions found during the last BreakTime() and
   // MakeTime() calls. If the next request is for the same transition we
